@@ -166,6 +166,31 @@ def _real_composed(db, kind, parts):
     return float(acc.GetValue())
 
 
+def _real_power_route(db, kind, parts):
+    """For a reading with a single factor u^e (`1/d`, `ft2`, `psi2`): the amount built from Scalars in the
+    component unit ITSELF and then re-expressed in base units by the library's own conversion of one-unit
+    derived quantities (the list-of-(unit, exponent) form).  None when the reading has another shape."""
+    from barril.units import Scalar
+
+    if kind != "compound" or len(parts) != 1 or parts[0][2] != 1:
+        return None
+    u, e, _p = parts[0]
+    info = db.unit_to_unit_info[u]
+    base = db.quantity_types[info.quantity_type][0].unit
+    if base == u:
+        return None
+    if float(db.Convert(info.quantity_type, u, base, 0.0)) != 0.0:
+        return None  # units with an offset have no power conversion
+    cat = db.GetDefaultCategory(u) or info.quantity_type
+    one = Scalar(1.0, u, cat)
+    acc = one
+    for _ in range(abs(e) - 1):
+        acc = acc * one
+    if e < 0:
+        acc = 1.0 / acc
+    return float(acc.GetValue([(base, e)]))
+
+
 def _parts_json(kind, parts):
     if kind == "si":
         return dict(kind="si", base=parts[0][0], ex=parts[0][1])
@@ -197,6 +222,13 @@ def impl(c, ctx):
         out["real_composed"] = float(_real_composed(ctx.db, j["kind"], j["parts"])).hex()
     except Exception as e:
         out["real_composed_err"] = "%s: %r" % (err_kind(e), e)
+    try:
+        pr = _real_power_route(ctx.db, j["kind"], j["parts"])
+        if pr is not None:
+            out["real_power_route"] = pr.hex()
+            ctx.notes["power_route_rows"] = ctx.notes.get("power_route_rows", 0) + 1
+    except Exception as e:
+        out["real_power_route_err"] = "%s: %r" % (err_kind(e), e)
     return dict(ok=out)
 
 
@@ -241,6 +273,13 @@ def agree(c, io, mo, ctx):
             return "composition by real Scalar arithmetic %r is not the model's product %s" % (r, float(e))
     elif "real_composed_err" in i:
         return "real Scalar composition raised: " + i["real_composed_err"]
+    if "real_power_route" in i:
+        r = float.fromhex(i["real_power_route"])
+        e = qparse(m["expected"])
+        if not close(r, e, abs(e) * 64):
+            return "power of a component Scalar, converted by the library's derived conversion, is %r; the model's product is %s" % (r, float(e))
+    elif "real_power_route_err" in i:
+        return "derived conversion of a component power raised: " + i["real_power_route_err"]
     return None
 
 
@@ -286,6 +325,15 @@ def oracle(c, ctx):
                     parts=_parts_json(kind, parts), error=repr(e))
     if not (math.isfinite(named) and math.isfinite(composed)) or composed == 0.0:
         return dict(clause="non-finite or zero factor", symbol=s, named=named, composed=composed)
+    try:
+        pr = _real_power_route(db, kind, parts)
+    except Exception as e:
+        return dict(clause="a power of the component unit cannot be converted to base units", symbol=s,
+                    parts=_parts_json(kind, parts), error=repr(e))
+    if pr is not None and abs(named * bfac - pr) / abs(pr) > tol + 1e-12:
+        return dict(clause="named unit differs from the power of its component Scalar re-expressed in base units",
+                    symbol=s, name=rows[s]["name"], parts=_parts_json(kind, parts), named_factor=named,
+                    component_power_in_base_units=pr, written_precision=tol)
     dev = abs(named * bfac - composed) / abs(composed)
     if dev > tol + 1e-12:
         return dict(clause="factor of the named unit differs from the composition of its parts", symbol=s,
